@@ -35,6 +35,13 @@ def dump(ml, text):
     return out
 
 
+def cost_of(ml):
+    try:
+        return ml.get_internal_cost()
+    except BaseException as ex:
+        return "exc:" + type(ex).__name__
+
+
 dic = Dictionary(config_path=script["config"], resource_dir=script["resource_dir"])
 tok = dic.create(mode=MODES[script["mode"]])
 lists = []     # (MorphemeList, text)
@@ -55,7 +62,8 @@ for i, c in enumerate(script["calls"]):
                 lists.append((ml, c["text"]))
             if c.get("keep") and len(ml) > 0:
                 kept.append(ml[len(ml) - 1])
-            res = {"i": i, "ok": True, "mode": mode_name(tok.mode), "ms": dump(ml, c["text"]), "n": len(ml), "size": ml.size()}
+            res = {"i": i, "ok": True, "mode": mode_name(tok.mode), "ms": dump(ml, c["text"]), "n": len(ml), "size": ml.size(),
+                   "cost": cost_of(ml), "bool": bool(ml), "iter": len(list(iter(ml)))}
         elif op == "split":
             ml, text = lists[c["list"]]
             m = ml[c["index"]]
@@ -67,7 +75,56 @@ for i, c in enumerate(script["calls"]):
                 lists[c["out"]] = (sub, text)
             else:
                 lists.append((sub, text))
-            res = {"i": i, "ok": True, "mode": mode_name(tok.mode), "ms": dump(sub, text), "n": len(sub)}
+            res = {"i": i, "ok": True, "mode": mode_name(tok.mode), "ms": dump(sub, text), "n": len(sub), "cost": cost_of(sub)}
+        elif op == "index":
+            # MorphemeList.__getitem__ with an int (possibly negative / out of range), a slice, a str, an int beyond isize
+            ml, text = lists[c["list"]]
+            a = c["arg"]
+            arg = slice(0, 1) if a == "slice" else ("0" if a == "str" else (1 << 70 if a == "huge" else a))
+            n_iter = len(list(iter(ml)))
+            try:
+                m = ml[arg]
+                res = {"i": i, "ok": True, "mode": mode_name(tok.mode), "key": [m.begin(), m.end(), m.word_id()], "iter": n_iter,
+                       "keys": [[x.begin(), x.end(), x.word_id()] for x in ml]}
+            except BaseException as ex:
+                res = {"i": i, "ok": True, "mode": mode_name(tok.mode), "exc": type(ex).__name__, "iter": n_iter}
+        elif op == "splitx":
+            # Morpheme.split with the argument shapes the plain `split` op does not use: out = the morpheme's own list,
+            # a mode that is not a mode, add_single left out
+            ml, text = lists[c["list"]]
+            m = ml[c["index"]]
+            kw = {}
+            if c.get("add_single") is not None:
+                kw["add_single"] = c["add_single"]
+            outl = None
+            if c.get("out") == "own":
+                kw["out"] = ml; outl = ml
+            elif c.get("out") is not None:
+                kw["out"] = lists[c["out"]][0]; outl = kw["out"]
+            mode = MODES[c["mode"]] if c["mode"] in MODES else c["mode"]
+            before = len(outl) if outl is not None else None
+            try:
+                sub = m.split(mode, **kw)
+                if c.get("out") is not None and c.get("out") != "own":
+                    lists[c["out"]] = (sub, text)
+                else:
+                    lists.append((sub, text))
+                res = {"i": i, "ok": True, "mode": mode_name(tok.mode), "ms": dump(sub, text), "n": len(sub), "same": (outl is None) or (sub is outl)}
+            except BaseException as ex:
+                res = {"i": i, "ok": True, "mode": mode_name(tok.mode), "exc": type(ex).__name__, "before": before, "after": len(outl) if outl is not None else None}
+        elif op == "create":
+            # Dictionary.create(mode, fields): a second tokenizer, used for one text
+            kw = {}
+            if c.get("fields") is not None:
+                kw["fields"] = set(c["fields"])
+            mode = MODES[c["mode"]] if c["mode"] in MODES else c["mode"]
+            try:
+                t2 = dic.create(mode, **kw)
+                ml = t2.tokenize(c["text"])
+                lists.append((ml, c["text"]))
+                res = {"i": i, "ok": True, "mode": mode_name(tok.mode), "ms": dump(ml, c["text"]), "n": len(ml)}
+            except BaseException as ex:
+                res = {"i": i, "ok": True, "mode": mode_name(tok.mode), "exc": type(ex).__name__}
         elif op == "lookup":
             ml = dic.lookup(c["query"])
             lists.append((ml, c["query"]))
